@@ -618,6 +618,8 @@ def _reset_unconditionally(cx: Cx, ob: Ob, attr: str) -> bool:
         for ev in p.events:
             if ev.kind == "expr" and op(ev.a) == "call" and ev.a[1] == ("attr", tgt, "clear"):
                 return True
+            if ev.kind == "store" and ev.a == tgt and is_const(ev.b, None):
+                return True  # a single slot emptied
             if ev.kind == "store" and ev.a == tgt and (op(ev.b) in ("dict", "list", "set", "tuple") and not ev.b[1] or (op(ev.b) == "new" and not s.mutations_of(ev.b) and op(ev.b[4] if len(ev.b) > 4 else None) in ("dict", "list", "set") and not ev.b[4][1])):
                 return True
         return False
@@ -1161,6 +1163,35 @@ def state_closure(cx: Cx, ob: Ob) -> None:
                             witness=f"__init__: self.{name} = {show(value)[:80]}; _index: self.{name} = {show(ev.b)[:80]}",
                             detail=f"partially-maintained:{name}",
                         )
+    # a MUTABLE class-level default ({} / [] / set()) for a piece of converter state is one object shared by every
+    # instance that has not bound its own: a write through self.<attr> on such an instance lands in all of them
+    import ast as _ast
+
+    ci_ = cx.model.cls(CONV, ob.id)
+    shared = {}
+    for name_, (ann_, val_) in list(ci_.fields.items()) + [(k_, (None, v_)) for k_, v_ in ci_.assigns.items()]:
+        if val_ is not None and (isinstance(val_, (_ast.Dict, _ast.List, _ast.Set)) or (isinstance(val_, _ast.Call) and _ast.unparse(val_.func) in ("dict", "list", "set", "defaultdict", "collections.defaultdict"))):
+            shared[name_] = val_
+    for name_, val_ in shared.items():
+        binds = [(ev_, c_) for ev_, c_ in s.walk() if ev_.kind == "store" and ev_.a == ("attr", me, name_)]
+        always = any(not [g for g in c_.guards if g.kind == "guard"] and not c_.loops for _, c_ in binds)
+        if always:
+            continue
+        for m, attr, ev, how in writers:
+            if attr != name_ or how == "assign" or m.name == "__init__":
+                continue
+            guarded = any(isinstance(n_, _ast.Call) and isinstance(n_.func, _ast.Name) and n_.func.id == "vars" for n_ in _ast.walk(m.node)) or any(isinstance(n_, _ast.Attribute) and n_.attr == "__dict__" for n_ in _ast.walk(m.node))
+            if guarded:
+                ob.site(f"{where(m, ev.line)} {m.qualname}", f"self.{name_} has a class-level default; {m.name} looks at the instance dictionary before writing")
+                continue
+            ob.violate(
+                m.qualname,
+                where(m, ev.line),
+                f"Converter.{name_} has a mutable class-level default ({_ast.unparse(val_)}) that __init__ replaces only on some paths, and {m.name} writes into self.{name_} ({how}): on a converter that never got its own, the entry goes into the ONE object all such converters share - a record added to one converter shows up in the others (and in the inputs a derived converter was made from)",
+                witness="chain([plain, with_pattern]): the pattern appears in plain.pattern_map",
+                detail=f"shared-class-default:{name_}",
+            )
+            break
     # a record that LEAVES the record list (replaced in place, removed, popped) takes its names out of what a freshly
     # built converter would know: the lookup tables must lose them too
     LEAVES = ("item-store", "call .remove()", "call .pop()", "call .clear()", "delete", "call .__delitem__()", "call .__setitem__()")
@@ -1185,6 +1216,19 @@ def state_closure(cx: Cx, ob: Ob) -> None:
             # in-place maintenance is fine; REBINDING a lookup table after construction is not:
             # tries and services hold references to the old object
             if how == "assign" and attr in TABLES and m.name != "__init__":
+                ctxs_ = [c_ for e_, c_ in cx.summary(m, ob.id, full=True).walk() if e_ is ev or (e_.line == ev.line and e_.kind == ev.kind)]
+                fresh_slot = any(
+                    g.kind == "guard" and g.b is False and op(g.a) == "cmp" and g.a[1] == "in" and is_const(g.a[2], attr) and op(g.a[3]) in ("call", "attr") and ("vars" in show(g.a[3]) or "__dict__" in show(g.a[3]))
+                    for c_ in ctxs_ for g in c_.guards
+                ) or any(
+                    g.kind == "guard" and g.b is True and op(g.a) == "cmp" and g.a[1] == "not in" and is_const(g.a[2], attr) and ("vars" in show(g.a[3]) or "__dict__" in show(g.a[3]))
+                    for c_ in ctxs_ for g in c_.guards
+                )
+                if fresh_slot:
+                    # bound for the FIRST time on this instance (the name was only a class-level default so far):
+                    # nobody can hold an earlier instance table
+                    ob.site(f"{where(m, ev.line)} {m.qualname}", f"self.{attr} bound for the first time on the instance")
+                    continue
                 ob.violate(
                     m.qualname,
                     where(m, ev.line),
@@ -1217,7 +1261,17 @@ def state_closure(cx: Cx, ob: Ob) -> None:
                     continue
             ob.undecide(f"__setstate__ writes self.{attr} ({how}) in a way __init__ does not")
             continue
-        if attr not in TABLES and attr not in BASE and how in ("item-store", "call .setdefault()") and _reset_unconditionally(cx, ob, attr):
+        if attr.startswith("_") and attr not in TABLES and attr not in BASE:
+            # a private look-aside table filled by a query that still ends in the authoritative scan of self.records
+            # when the table has no (valid) answer: whether hits are verified well enough is a value question
+            ms_ = cx.summary(m, ob.id, full=True)
+            mme_ = ("param", m.self_name)
+            scans = [e2 for e2, c2 in ms_.walk() if e2.kind == "loop" and not c2.loops and _strip_views(e2.b) == ("attr", mme_, "records")]
+            reads = [e2.line for e2, _ in ms_.walk() if any(isinstance(t_, tuple) and any(op(x) == "attr" and x[1] == mme_ and x[2] == attr for x in subterms(t_)) or (isinstance(t_, tuple) and any(op(x) == "call" and x[1] == ("builtin", "getattr") and len(x[2]) >= 2 and x[2][0] == mme_ and is_const(x[2][1], attr) for x in subterms(t_))) for t_ in (e2.a, e2.b))]
+            if scans and reads and max(s_.line for s_ in scans) > min(reads):
+                ob.undecide(f"{m.name} keeps a look-aside table self.{attr} and falls back on the scan of self.records (line {max(s_.line for s_ in scans)}): that a hit is always the record the scan would find is not decided")
+                continue
+        if attr not in TABLES and attr not in BASE and (how in ("item-store", "call .setdefault()") or (how == "assign" and attr.startswith("_"))) and _reset_unconditionally(cx, ob, attr):
             # a memo of query results keyed by the query, which _index - run on every mutation path (pairing
             # obligation) - resets on all of its paths.  That the key covers everything the answer depends on is
             # not a shape; a single-slot cache, or one reset only on some mutation paths, is reported below.
@@ -1559,6 +1613,21 @@ def cached_derivations(cx: Cx, ob: Ob, class_names=("Record", "Reference", "Nama
                 ob.site(m.where, f"{ci.name}.{m.name} is memoised and _index clears the cache unconditionally")
                 continue
             if m.is_cached_property:
+                import ast as _ast
+
+                drops = []
+                for g in cx.model.functions.values():
+                    for n in _ast.walk(g.node):
+                        # x.__dict__.pop("<name>", ..) / del x.__dict__["<name>"] / del x.<name>
+                        if isinstance(n, _ast.Call) and isinstance(n.func, _ast.Attribute) and n.func.attr == "pop" and isinstance(n.func.value, _ast.Attribute) and n.func.value.attr == "__dict__" and n.args and isinstance(n.args[0], _ast.Constant) and n.args[0].value == m.name:
+                            drops.append((g, n.lineno))
+                        elif isinstance(n, _ast.Delete):
+                            for t_ in n.targets:
+                                if (isinstance(t_, _ast.Attribute) and t_.attr == m.name) or (isinstance(t_, _ast.Subscript) and isinstance(t_.value, _ast.Attribute) and t_.value.attr == "__dict__" and isinstance(t_.slice, _ast.Constant) and t_.slice.value == m.name):
+                                    drops.append((g, n.lineno))
+                if drops:
+                    ob.undecide(f"{ci.name}.{m.name} is memoised and dropped again at {', '.join(sorted({f'{g_.name}:{ln}' for g_, ln in drops}))}: that every change of the fields it is computed from (in-place appends included) is followed by such a drop is not decided")
+                    continue
                 ob.violate(
                     m.qualname,
                     m.where,
@@ -1919,7 +1988,7 @@ def record_verbatim(cx: Cx, ob: Ob, class_q: str = "curies.api.Record") -> None:
                     fname = ast.unparse(call.func).rsplit(".", 1)[-1]
                     if fname in ("constr", "StringConstraints", "Field"):
                         for kw in call.keywords:
-                            if kw.arg in STR_ALTERING_CONSTRAINTS and not (isinstance(kw.value, ast.Constant) and kw.value.value in (False, None)) and name in (CANON | LISTS):
+                            if kw.arg in STR_ALTERING_CONSTRAINTS and not (isinstance(kw.value, ast.Constant) and kw.value.value in (False, None)) and name in (CURIE_SIDE | URI_SIDE):
                                 ob.violate(c.qualname, f"src/curies/{c.module.relpath}:{call.lineno}", f"{c.name}.{name} is declared with {fname}({kw.arg}=...): the string is altered or rejected when the record is built", detail=f"constraint:{name}:{kw.arg}")
 
 
